@@ -458,10 +458,12 @@ l_runlock: RUnlock();
 
         \* ---------------- cds_lfht_destroy(ht, NULL), called once every other thread has finished
 ds_join:  await \A t \in Threads \ {self} : done[t];
-          if (AutoResize) { goto ds_e_lock } else { goto ds_db };
-ds_e_lock: RLock();                                                \* cds_lfht_is_empty(): read_lock, walk, read_unlock
+          if (AutoResize) { goto ds_e_on } else { goto ds_db };
+ds_e_on:  acc := Ev(self, "online", "-", 0, 0, 0);                 \* cds_lfht_is_empty(): if (!read_ongoing()) { thread_online(); read_lock(); }
+ds_e_lock: RLock();                                                \*   (destroy is called outside any section: the QSBR bracket is always taken)
           errA := Alive("is_empty");
-ds_e_unlock: RUnlock();
+ds_e_unlock: RUnlock();                                            \* read_unlock(); thread_offline();
+ds_e_off: acc := Ev(self, "offline", "-", 0, 0, 0);
           if (items # 0) { res := 0 - 1; goto t_ret };
 ds_st_ipd: St("in_progress_destroy", 1);                           \* uatomic_store(&ht->in_progress_destroy, 1)
 ds_queue: await Drained(self);                                     \* urcu_workqueue_queue_work(..., &ht->destroy_work, do_auto_resize_destroy_cb)
@@ -2073,7 +2075,7 @@ l_runlock(self) == /\ pc[self] = "l_runlock"
 ds_join(self) == /\ pc[self] = "ds_join"
                  /\ \A t \in Threads \ {self} : done[t]
                  /\ IF AutoResize
-                       THEN /\ pc' = [pc EXCEPT ![self] = "ds_e_lock"]
+                       THEN /\ pc' = [pc EXCEPT ![self] = "ds_e_on"]
                        ELSE /\ pc' = [pc EXCEPT ![self] = "ds_db"]
                  /\ UNCHANGED << mem, sb, mutex, acc, alloc, gpok, gpw, gps, 
                                  cs, held, wq, htAlive, destroying, items, 
@@ -2082,6 +2084,17 @@ ds_join(self) == /\ pc[self] = "ds_join"
                                  pstart, plen, ppl, pcov, pn, pg, stack, kind, 
                                  tv, gsz, lg, lsz, lcnt, csz, cg, hsz, ksz, i, 
                                  op, n, sz, g, nchk, res, hn, hg, cur >>
+
+ds_e_on(self) == /\ pc[self] = "ds_e_on"
+                 /\ acc' = Ev(self, "online", "-", 0, 0, 0)
+                 /\ pc' = [pc EXCEPT ![self] = "ds_e_lock"]
+                 /\ UNCHANGED << mem, sb, mutex, alloc, gpok, gpw, gps, cs, 
+                                 held, wq, htAlive, destroying, items, growMax, 
+                                 done, err, errA, rv, ra, rb, rs, osz, nsz, oi, 
+                                 olast, fbr, hjob, ncreate, pnt, pk, pstart, 
+                                 plen, ppl, pcov, pn, pg, stack, kind, tv, gsz, 
+                                 lg, lsz, lcnt, csz, cg, hsz, ksz, i, op, n, 
+                                 sz, g, nchk, res, hn, hg, cur >>
 
 ds_e_lock(self) == /\ pc[self] = "ds_e_lock"
                    /\ cs' = [cs EXCEPT ![self] = TRUE]
@@ -2101,19 +2114,30 @@ ds_e_unlock(self) == /\ pc[self] = "ds_e_unlock"
                      /\ held' = [held EXCEPT ![self] = {}]
                      /\ gpw' = [p \in Procs |-> gpw[p] \ {self}]
                      /\ acc' = Ev(self, "runlock", "-", 0, 0, 0)
-                     /\ IF items # 0
-                           THEN /\ res' = [res EXCEPT ![self] = 0 - 1]
-                                /\ pc' = [pc EXCEPT ![self] = "t_ret"]
-                           ELSE /\ pc' = [pc EXCEPT ![self] = "ds_st_ipd"]
-                                /\ res' = res
+                     /\ pc' = [pc EXCEPT ![self] = "ds_e_off"]
                      /\ UNCHANGED << mem, sb, mutex, alloc, gpok, gps, wq, 
                                      htAlive, destroying, items, growMax, done, 
                                      err, errA, rv, ra, rb, rs, osz, nsz, oi, 
                                      olast, fbr, hjob, ncreate, pnt, pk, 
                                      pstart, plen, ppl, pcov, pn, pg, stack, 
                                      kind, tv, gsz, lg, lsz, lcnt, csz, cg, 
-                                     hsz, ksz, i, op, n, sz, g, nchk, hn, hg, 
-                                     cur >>
+                                     hsz, ksz, i, op, n, sz, g, nchk, res, hn, 
+                                     hg, cur >>
+
+ds_e_off(self) == /\ pc[self] = "ds_e_off"
+                  /\ acc' = Ev(self, "offline", "-", 0, 0, 0)
+                  /\ IF items # 0
+                        THEN /\ res' = [res EXCEPT ![self] = 0 - 1]
+                             /\ pc' = [pc EXCEPT ![self] = "t_ret"]
+                        ELSE /\ pc' = [pc EXCEPT ![self] = "ds_st_ipd"]
+                             /\ res' = res
+                  /\ UNCHANGED << mem, sb, mutex, alloc, gpok, gpw, gps, cs, 
+                                  held, wq, htAlive, destroying, items, 
+                                  growMax, done, err, errA, rv, ra, rb, rs, 
+                                  osz, nsz, oi, olast, fbr, hjob, ncreate, pnt, 
+                                  pk, pstart, plen, ppl, pcov, pn, pg, stack, 
+                                  kind, tv, gsz, lg, lsz, lcnt, csz, cg, hsz, 
+                                  ksz, i, op, n, sz, g, nchk, hn, hg, cur >>
 
 ds_st_ipd(self) == /\ pc[self] = "ds_st_ipd"
                    /\ IF TSO
@@ -2229,10 +2253,11 @@ thr(self) == t_top(self) \/ rs_tgt(self) \/ rs_st_ri(self) \/ rs_lock(self)
                 \/ a_runlock(self) \/ d_rlock(self) \/ d_ld_size(self)
                 \/ d_remove(self) \/ d_cnt(self) \/ d_runlock(self)
                 \/ l_rlock(self) \/ l_ld_size(self) \/ l_walk(self)
-                \/ l_runlock(self) \/ ds_join(self) \/ ds_e_lock(self)
-                \/ ds_e_unlock(self) \/ ds_st_ipd(self) \/ ds_queue(self)
-                \/ ds_db(self) \/ ds_dbr(self) \/ ds_fsc(self)
-                \/ ds_fht(self) \/ t_ret(self) \/ t_fin(self)
+                \/ l_runlock(self) \/ ds_join(self) \/ ds_e_on(self)
+                \/ ds_e_lock(self) \/ ds_e_unlock(self) \/ ds_e_off(self)
+                \/ ds_st_ipd(self) \/ ds_queue(self) \/ ds_db(self)
+                \/ ds_dbr(self) \/ ds_fsc(self) \/ ds_fht(self)
+                \/ t_ret(self) \/ t_fin(self)
 
 hp_reg(self) == /\ pc[self] = "hp_reg"
                 /\ hjob[self].st = "run"
